@@ -1080,12 +1080,50 @@ def _pi(ex, args, kw, st):
 TABLE['pi_'] = _pi
 
 
+_STR_CODES = {}
+
+
+def str_code(s_):
+    """Distinct integer for every distinct string constant (strings as arguments of
+    uninterpreted specification functions)."""
+    if s_ not in _STR_CODES:
+        _STR_CODES[s_] = len(_STR_CODES) + 1
+    return _STR_CODES[s_]
+
+
+def cl_code(ex, args, kw, st):
+    v = args[0]
+    if isinstance(v, str):
+        return str_code(v)
+    if v is None:
+        return 0
+    if is_num(v):
+        return v
+    raise Unsupported('code_ of a non-constant string')
+
+
+def cl_id(ex, args, kw, st):
+    """id_(x): identity token of the memory of an array (0 for None): lets a specification say
+    "the same array object was passed on"."""
+    v = args[0]
+    if v is None:
+        return 0
+    if isinstance(v, SArr) and v.store is not None:
+        st.fact(v.store.tok >= 1)
+        return v.store.tok
+    raise Unsupported('id_ of a value without identity')
+
+
 def _record(ex, args, kw, st):
     """record_('Class', field=value, ...): a record value in contract text (no constructor run)."""
     return SObj(args[0], dict(kw))
 
 
 TABLE['record_'] = _record
+for _n in ('apsum', 'aperr', 'aparea'):
+    TABLE[_n + '_'] = cl_uf(_n)
+TABLE['id_'] = cl_id
+TABLE['code_'] = cl_code
 
 
 def lookup(name):
